@@ -17,7 +17,7 @@ var lexFragments = []string{
 	"\"abc\"", "'abc'", "\"a'b\"", "'a\"b'", "\"\"", "''", "\"a\\nb\"", "\"\\x41\"", "\"\\x4\"", "\"\\x4g\"", "\"\\xzz\"", "\"\\u0041\"", "\"\\u004\"",
 	"\"\\u00\"", "\"\\u{41}\"", "\"\\u{1F600}\"", "\"\\u{110000}\"", "\"\\u{}\"", "\"\\u{1234567}\"", "\"\\u{12\"", "\"\\u{zz}\"", "\"\\\"\"", "'\\''",
 	"\"\\\n\"", "\"abc", "'abc", "\"abc\\", "\"\\u", "\"\\x", "\"\\u{", "\"\\u{1", "`raw`", "`a\\`b`", "`multi\nline`", "`unterminated", "`a\\\\`", "``",
-	"// comment\n", "// trailing", "//\n", "// a // b\n", "//x  \n", "/", "/ /", "/* c */",
+	"// comment\n", "// trailing", "//\n", "// a // b\n", "//x  \n", "/", "/ /", "/* c */", "/*", "*/",
 	"// comment\r\n", "x // c\r\ny", "//\r\n", "a // b\r\n(c)", "return // c\r\n1", "a\r\n++b", "`a\r\nb`", "\"a\\\r\nb\"",
 	" ", "  ", "\t", "\n", "\n\n", "\r", "\r\n", "\x00", "\x80", "\xe9", "\xff", "é", "日本", "\u2028",
 	// escapes inside backtick literals other than the backtick's own; a byte order mark
@@ -68,6 +68,13 @@ func genLex(r *rand.Rand, n int, exhaustive bool, emit func(string)) {
 	for _, f := range lexFragments {
 		emit(fmt.Sprintf("LEX %s 2", hexOf(f)))
 	}
+	// the same lexer with a plugin in front (see doLex): 1xx a plugin that builds tokens through the exported NewToken,
+	// 2xx a plugin that consumes `/* … */` itself before handing over
+	for _, f := range []string{"a @ b", "// c\n@ a\n\n# b // t\n~", "x ? y ^ z", "@", "a /* c */ b", "/* x */let y = 1 /* z\nw */  + 2 // t\n/* q */\n3",
+		"a /* unterminated", "/**/ /**/x", "a/*c*/\n(b)", "f(/* 1 */a, /* 2 */ b) /* 3 */", "/* é */ \"s\" /*\n\n*/ `t`"} {
+		emit(fmt.Sprintf("LEX %s 101", hexOf(f)))
+		emit(fmt.Sprintf("LEX %s 201", hexOf(f)))
+	}
 	for i := 0; i < n; i++ {
 		var s string
 		switch r.Intn(3) {
@@ -82,7 +89,17 @@ func genLex(r *rand.Rand, n int, exhaustive bool, emit func(string)) {
 		if r.Intn(12) == 0 { // a byte order mark in front
 			s = "\ufeff" + s
 		}
-		emit(fmt.Sprintf("LEX %s %d", hexOf(s), r.Intn(4)))
+		plugin := 0
+		switch r.Intn(8) {
+		case 0:
+			plugin = 100
+		case 1:
+			plugin = 200
+			if r.Intn(2) == 0 { // put block comments between the fragments
+				s = strings.ReplaceAll(s, " ", []string{" /* c */ ", "/**/", " /* a\nb */"}[r.Intn(3)])
+			}
+		}
+		emit(fmt.Sprintf("LEX %s %d", hexOf(s), plugin+r.Intn(4)))
 	}
 }
 
